@@ -99,6 +99,27 @@ Definition as_bytes (v : val) : option bytes :=
 Definition as_list (v : val) : option (list val) :=
   match v with VList l => Some l | VNil => Some [] | _ => None end.
 
+(* environments and records are short concrete lists: their own accessors, so that proofs can
+   evaluate them while leaving the list functions on (symbolic) data alone *)
+Fixpoint vget (env : list val) (x : nat) : option val :=
+  match env, x with
+  | v :: _, O => Some v
+  | _ :: r, S k => vget r k
+  | [], _ => None
+  end.
+Fixpoint vset (env : list val) (x : nat) (v : val) : list val :=
+  match env, x with
+  | _ :: r, O => v :: r
+  | y :: r, S k => y :: vset r k v
+  | [], _ => []
+  end.
+Fixpoint vpad (k : nat) : list val := match k with O => [] | S k' => VNil :: vpad k' end.
+Fixpoint vext (args : list val) (k : nat) : list val :=
+  match args with [] => vpad k | a :: r => a :: vext r k end.
+Fixpoint vcount (l : list val) : nat := match l with [] => O | _ :: r => S (vcount r) end.
+Fixpoint same_nat (a b : nat) : bool :=
+  match a, b with O, O => true | S a', S b' => same_nat a' b' | _, _ => false end.
+
 Definition set_nth {A} (n : nat) (x : A) (l : list A) : list A := firstn n l ++ x :: skipn (S n) l.
 
 Definition in_range (z : Z) (n : nat) : bool := ((0 <=? z) && (z <? Z.of_nat n))%Z.
@@ -169,7 +190,7 @@ Fixpoint eval (env : list val) (e : expr) {struct e} : option val :=
   | EStr s => Some (VBytes s)
   | ENil => Some VNil
   | EErr => Some VErr
-  | EVar x => nth_error env x
+  | EVar x => vget env x
   | EBin BLAnd a b =>
     match eval env a with
     | Some (VBool false) => Some (VBool false)
@@ -300,7 +321,7 @@ Fixpoint eval (env : list val) (e : expr) {struct e} : option val :=
     end
   | EField a i =>
     match eval env a with
-    | Some (VRec fs) => nth_error fs i
+    | Some (VRec fs) => vget fs i
     | _ => None
     end
   | ERec fs => match evals fs with Some vs => Some (VRec vs) | None => None end
@@ -313,16 +334,16 @@ Fixpoint eval (env : list val) (e : expr) {struct e} : option val :=
 Fixpoint lupdate (env : list val) (l : lval) (upd : val -> option val) {struct l} : option (list val) :=
   match l with
   | LVar x =>
-    match nth_error env x with
-    | Some v => match upd v with Some v' => Some (set_nth x v' env) | None => None end
+    match vget env x with
+    | Some v => match upd v with Some v' => Some (vset env x v') | None => None end
     | None => None
     end
   | LField l' f =>
     lupdate env l' (fun r =>
       match r with
       | VRec fs =>
-        match nth_error fs f with
-        | Some v => match upd v with Some v' => Some (VRec (set_nth f v' fs)) | None => None end
+        match vget fs f with
+        | Some v => match upd v with Some v' => Some (VRec (vset fs f v')) | None => None end
         | None => None
         end
       | _ => None
@@ -454,8 +475,8 @@ Fixpoint exec (n : nat) (s : stmt) (env : list val) {struct s} : out :=
 
 (* result of a call: [Some (Some v)] returned v; [Some None] panicked; [None] out of fuel *)
 Definition run (n : nat) (f : func) (args : list val) : option (option val) :=
-  if negb (length args =? f_params f) then Some None else
-  match exec n (f_body f) (args ++ repeat VNil (f_locals f)) with
+  if negb (same_nat (vcount args) (f_params f)) then Some None else
+  match exec n (f_body f) (vext args (f_locals f)) with
   | ORet v => Some (Some v)
   | OFuel => None
   | _ => Some None
